@@ -375,9 +375,42 @@ theorem encode_decode_plain (c : Codec) (h : c = codec1 ∨ c = codec2) (env : E
   rw [san_plain v hp] at this
   exact this
 
-/-- the three encoders produce the same bytes -/
-theorem encoders_agree (v : Val) : encode1 v = encode2 v ∧ encode3 v = encode2 v :=
-  ⟨encode1_eq v, encode3_eq v⟩
+theorem encode4_decode (c : Codec) (h : c = codec1 ∨ c = codec2) : C15_encode_decode encode4 c := by
+  intro env v rest hw hd ha hs
+  rw [encode4_eq] at hs ⊢
+  exact encode2_decode c h env v rest hw hd ha hs
+
+/-- all the server's encoders produce the same bytes: `RespCodec::encode` (1), `RespParser::encode`
+    (2), the connection handler's private `encode_resp_into` (3, its own transcription
+    `encodeConnS`), the simulated connection's `encode_resp` (4) -/
+theorem encoders_agree (v : Val) : encode1 v = encode2 v ∧ encode3 v = encode2 v ∧ encode4 v = encode2 v :=
+  ⟨encode1_eq v, encode3_eq v, encode4_eq v⟩
+
+/-- `encode_error_into(msg)` (protocol errors, command-parse errors) is ONE error frame that decodes
+    to the error text `errText msg` as written on the wire -/
+theorem encode_error_decode (c : Codec) (h : c = codec1 ∨ c = codec2) (env : Env) (msg rest : Bytes)
+    (hw : (Val.error (errText msg)).wf c = true) (hd : 1 ≤ env.depth) (hs : Small (encodeErr msg ++ rest)) :
+    (parseG c env (encodeErr msg ++ rest)).out = .ok (Val.error (errText msg)).san (encodeErr msg).length := by
+  rw [encodeErr_eq] at hs ⊢
+  exact encode2_decode c h env _ rest hw (by simpa [Val.depth] using hd) (by simp [Val.arr]) hs
+
+/-- COUNTEREXAMPLE for the variant of the connection encoder whose two null arms are merged
+    (`BulkString(None) | Array(None) => "$-1\r\n"`): the null array — the reply of an aborted EXEC —
+    is written as a null bulk string and decodes to a different value, also inside an array -/
+theorem null_array_as_null_bulk_counterexample :
+    encode3Merged .nullArray = [36, 45, 49, 13, 10] ∧ encode3 .nullArray = [42, 45, 49, 13, 10] ∧
+    (parse1 env0 (encode3Merged .nullArray)).out = .ok .nullBulk 5 ∧
+    (parse2 env0 (encode3Merged (.array [.int 1, .nullArray]))).out = .ok (.array [.int 1, .nullBulk]) 13 ∧
+    (parse1 env0 (encode3 .nullArray)).out = .ok .nullArray 5 :=
+  ⟨by decide, by decide, rfl, rfl, rfl⟩
+
+theorem merged_nulls_encode_decode_counterexample : ¬ C15_encode_decode encode3Merged codec1 := by
+  intro h
+  have h1 := h env0 .nullArray [] (by decide) (by decide) (by decide) (by decide)
+  have h2 : (parseG codec1 env0 (encode3Merged .nullArray ++ [])).out = .ok .nullBulk 5 := rfl
+  rw [h2] at h1
+  injection h1 with hv _
+  cases hv
 
 /-- `-ERR unknown command 'FOO\r\n+INJECTED'`: an error whose text contains CR LF (the server
     builds such replies from client bytes) -/
